@@ -18,6 +18,10 @@ REPO_SRC = os.environ.get("VERIF_REPO_SRC", "/repo/src")
 if sys.path[0] != REPO_SRC:
     sys.path.insert(0, REPO_SRC)
 
+_H = os.path.join(os.path.dirname(os.path.dirname(os.path.abspath(__file__))), "harness")
+if _H not in sys.path:
+    sys.path.append(_H)
+
 SYMBOLIC = os.environ.get("VERIF_SYMBOLIC") == "1"
 
 if SYMBOLIC:
